@@ -74,12 +74,13 @@ static void mutate_transcript_case(Ctx &ctx, size_t entry, bool range_sweep = fa
   ctx.count("mutations_judged", (int64_t)judged); ctx.count("mutations_unjudged", (int64_t)unjudged); ctx.count("refused_by_exception", (int64_t)refused_by_exception);
   if (judged) ctx.nontrivial(s->desc.str() + "#" + std::to_string(judged));
 }
-VF_ENUM(transcript_values_bound, 27 * 8, 27 * 150) { size_t i = ctx.c.raw(); mutate_transcript_case(ctx, i % scenario_registry().size()); }
+VF_ENUM(transcript_values_bound, 27 * 8, 27 * 150) { size_t i = ctx.c.raw(); mutate_transcript_case(ctx, i % REGISTRY_BASE); }
+VF_ENUM(transcript_values_bound_class_level, 2 * 8, 2 * 150) { size_t i = ctx.c.raw(); mutate_transcript_case(ctx, REGISTRY_BASE + i % (scenario_registry().size() - REGISTRY_BASE)); }
 // (a') interactive proofs: every prover line x {v+p, v-p, v+q}
-VF_ENUM(interactive_out_of_range_values_refused, 13 * 3, 13 * 40) {
-  static const char *IA[13] = {"key_interactive", "key_interactive_publiccoin", "stack_cutchoose_permutation", "stack_cutchoose_rotation", "stack_groth_interactive", "stack_hoogh_interactive", "skc_interactive", "skc_publiccoin",
+VF_ENUM(interactive_out_of_range_values_refused, 15 * 3, 15 * 40) {
+  static const char *IA[15] = {"groth_class_interactive", "hoogh_class_interactive", "key_interactive", "key_interactive_publiccoin", "stack_cutchoose_permutation", "stack_cutchoose_rotation", "stack_groth_interactive", "stack_hoogh_interactive", "skc_interactive", "skc_publiccoin",
     "flip_twoparty", "tmcg_maskcard_rabin", "tmcg_cardsecret_rabin", "stack_cutchoose_rabin_permutation", "stack_cutchoose_rabin_rotation"};
-  size_t i = ctx.c.raw() % 13; const std::vector<Entry> &R = scenario_registry();
+  size_t i = ctx.c.raw() % 15; const std::vector<Entry> &R = scenario_registry();
   for (size_t z = 0; z < R.size(); z++) if (std::string(R[z].name) == IA[i]) { mutate_transcript_case(ctx, z, true); return; }
   ctx.discard();
 }
@@ -123,7 +124,8 @@ static void public_input_case(Ctx &ctx, size_t entry) {
   ctx.count("mutations_judged", (int64_t)judged);
   if (judged) ctx.nontrivial(s->desc.str() + "#" + std::to_string(judged));
 }
-VF_ENUM(public_inputs_bound, 27 * 6, 27 * 100) { size_t i = ctx.c.raw(); public_input_case(ctx, i % scenario_registry().size()); }
+VF_ENUM(public_inputs_bound, 27 * 6, 27 * 100) { size_t i = ctx.c.raw(); public_input_case(ctx, i % REGISTRY_BASE); }
+VF_ENUM(public_inputs_bound_class_level, 2 * 6, 2 * 100) { size_t i = ctx.c.raw(); public_input_case(ctx, REGISTRY_BASE + i % (scenario_registry().size() - REGISTRY_BASE)); }
 
 // (c) constructor text of the verifier-side argument object (commitment generators in use, group, key)
 VF_SUB(argument_parameters_bound, 60, 1500) {
